@@ -37,6 +37,7 @@ inductive RPc
   | postErr  -- yield chan.read.post, read returned a non-EOF error
   | send     -- yield chan.read.send: about to hand the error over (`select { Errs <- err; <-done }`)
   | parked   -- inside that select, waiting for a receiver or for `done`
+  | woken    -- `done` was closed while parked: the select has committed to the `done` case
   | sent     -- the error was taken; sleeping, then `continue`
   | exit     -- yield chan.read.exit: deferred exit (`readLoopExited.Store(true); close(readLoopDone)`)
   | dead     -- goroutine terminated
@@ -78,6 +79,7 @@ inductive NPc
   | cDeq     -- yield chan.Read.deq
   | send     -- yield nc.read.send: `select { d.errs <- err; <-d.done }`
   | parked   -- inside that select
+  | woken    -- `d.done` was closed while parked: the select has committed to the `done` case
   | sent     -- the error was taken by an RPC waiter; rest of the loop body, sleep
   | dead     -- goroutine terminated
   deriving DecidableEq, Repr, Inhabited
@@ -119,7 +121,7 @@ def Left.toNat : Left → Nat | .zero => 0 | .one => 1 | .two => 2
 def Left.pred : Left → Left | .two => .one | _ => .zero
 def RPc.toNat : RPc → Nat
   | .top => 0 | .pre => 1 | .inRead => 2 | .postOk => 3 | .postEof => 4 | .postErr => 5
-  | .send => 6 | .parked => 7 | .sent => 8 | .exit => 9 | .dead => 10
+  | .send => 6 | .parked => 7 | .sent => 8 | .exit => 9 | .dead => 10 | .woken => 11
 def OPc.toNat : OPc → Nat
   | .absent => 0 | .start => 1 | .errs => 2 | .flag => 3 | .deq => 4 | .ret => 5
 def KPc.toNat : KPc → Nat
@@ -127,7 +129,7 @@ def KPc.toNat : KPc → Nat
   | .nice => 6 | .niceLk => 7 | .force => 8 | .ret => 9
 def NPc.toNat : NPc → Nat
   | .absent => 0 | .top => 1 | .pre => 2 | .cErrs => 3 | .cFlag => 4 | .cDeq => 5 | .send => 6
-  | .parked => 7 | .sent => 8 | .dead => 9
+  | .parked => 7 | .sent => 8 | .dead => 9 | .woken => 10
 def WPc.toNat : WPc → Nat
   | .absent => 0 | .start => 1 | .select => 2 | .parked => 3 | .got => 4 | .ret => 5
 def b2n : Bool → Nat | false => 0 | true => 1
@@ -136,15 +138,15 @@ def allMode : List Mode := [.eofOnClose, .errOnClose, .stay]
 def allFeed : List Feed := [.quiet, .data, .eof, .err]
 def allLeft : List Left := [.zero, .one, .two]
 def allBool : List Bool := [false, true]
-def allRPc : List RPc := [.top, .pre, .inRead, .postOk, .postEof, .postErr, .send, .parked, .sent, .exit, .dead]
+def allRPc : List RPc := [.top, .pre, .inRead, .postOk, .postEof, .postErr, .send, .parked, .woken, .sent, .exit, .dead]
 def allKPc : List KPc := [.idle, .ncDone, .ncChan, .entry, .signal, .select, .nice, .niceLk, .force, .ret]
-def allNPc : List NPc := [.absent, .top, .pre, .cErrs, .cFlag, .cDeq, .send, .parked, .sent, .dead]
+def allNPc : List NPc := [.absent, .top, .pre, .cErrs, .cFlag, .cDeq, .send, .parked, .woken, .sent, .dead]
 def allWPc : List WPc := [.absent, .start, .select, .parked, .got, .ret]
 def allOPc : List OPc := [.absent, .start, .errs, .flag, .deq, .ret]
 
 /-- upper bound on the number of further steps of the read loop once `done` is closed -/
 def RPc.rank : RPc → Nat
-  | .dead => 0 | .exit => 1 | .top => 2 | .postEof => 2 | .sent => 3 | .postOk => 3 | .parked => 4
+  | .dead => 0 | .exit => 1 | .top => 2 | .postEof => 2 | .woken => 2 | .sent => 3 | .postOk => 3 | .parked => 4
   | .send => 5 | .postErr => 6 | .inRead => 7 | .pre => 8
 
 /-- upper bound on the number of further steps of one `Close` call -/
@@ -159,7 +161,7 @@ def KPc.label : KPc → String
 
 /-- upper bound on the number of further steps of the NETCONF read loop once `d.done` is closed -/
 def NPc.rank : NPc → Nat
-  | .absent => 0 | .dead => 0 | .top => 1 | .sent => 2 | .cDeq => 2 | .parked => 3 | .send => 4
+  | .absent => 0 | .dead => 0 | .top => 1 | .woken => 1 | .sent => 2 | .cDeq => 2 | .parked => 3 | .send => 4
   | .cFlag => 5 | .cErrs => 6 | .pre => 7
 
 def WPc.rank : WPc → Nat
@@ -168,7 +170,7 @@ def WPc.rank : WPc → Nat
 def NPc.label : NPc → String
   | .absent => "absent" | .top => "nc.read.top" | .pre => "nc.read.pre" | .cErrs => "chan.Read.errs"
   | .cFlag => "chan.Read.flag" | .cDeq => "chan.Read.deq" | .send => "nc.read.send"
-  | .parked => "blocked" | .sent => "~" | .dead => "dead"
+  | .parked => "blocked" | .woken => "~" | .sent => "~" | .dead => "dead"
 
 def WPc.label : WPc → String
   | .absent => "absent" | .start => "start" | .select => "nc.rpc.select" | .parked => "blocked"
@@ -185,7 +187,7 @@ def OPc.rank (second : Bool) : OPc → Nat
 def RPc.label : RPc → String
   | .top => "chan.read.top" | .pre => "chan.read.pre" | .inRead => "blocked"
   | .postOk => "chan.read.post" | .postEof => "chan.read.post" | .postErr => "chan.read.post"
-  | .send => "chan.read.send" | .parked => "blocked" | .sent => "~" | .exit => "chan.read.exit"
+  | .send => "chan.read.send" | .parked => "blocked" | .woken => "~" | .sent => "~" | .exit => "chan.read.exit"
   | .dead => "dead"
 
 def OPc.label : OPc → String
